@@ -313,6 +313,135 @@ func c09MixProg(s c09Spec) *progCase {
 	return &progCase{P: &Program{Funcs: append([]*Func{c09Show}, c09MixFuncs...), Rules: []*Rule{{Body: Blk(body...)}}}, Files: []inFile{{"in.json", `[1,{"x":2}]`}}, Root: true}
 }
 
+// c09CopyTime: "scalars are copied on argument passing and insertion into containers" -- at the moment the element is
+// evaluated. One list (array literal, object literal, arguments of a user function, of printf, of a method) holds a plain
+// read of a scalar location, then an expression that changes that location, then the read again; and calls that return a
+// global by value next to calls that change it.
+func c09CopyTimePrograms() []*progCase {
+	out, _ := copyTimePrograms()
+	return out
+}
+
+// copyTimePrograms also returns, per program, the kind of list it is about (literal, call, printf, push, assign, return).
+func copyTimePrograms() ([]*progCase, []string) {
+	type loc struct {
+		init []Stmt
+		x    func() Expr
+		doc  string
+	}
+	locs := []loc{
+		{[]Stmt{Ex(Asg("=", V("i"), N("1")))}, func() Expr { return V("i") }, ""},
+		{[]Stmt{Ex(Asg("=", V("o"), &ObjLit{Keys: []string{"k"}, Vals: []Expr{N("1")}}))}, func() Expr { return Mem(V("o"), "k") }, ""},
+		{[]Stmt{Ex(Asg("=", V("a"), Arr_(N("1"), N("5"))))}, func() Expr { return Idx(V("a"), N("0")) }, ""},
+		{nil, func() Expr { return Mem(V("$"), "x") }, `[{"x":1},{"x":"s"}]`},
+		{nil, func() Expr { return V("$") }, `[1,"s",2]`},
+	}
+	effects := []func(x Expr) Expr{
+		func(x Expr) Expr { return &Postfix{Op: "++", X: x} },
+		func(x Expr) Expr { return Un("++", x) },
+		func(x Expr) Expr { return &Postfix{Op: "--", X: x} },
+		func(x Expr) Expr { return Asg("+=", x, N("5")) },
+		func(x Expr) Expr { return Asg("=", x, N("7")) },
+		func(x Expr) Expr { return Asg("=", x, S("new")) },
+		func(x Expr) Expr { return CallE(V("set9"), N("0")) }, // a callee that assigns the globals i, o.k, a[0]
+	}
+	f3 := &Func{Name: "f3", Params: []string{"p", "q", "r"}, Body: Blk(Pr(S("in f3"), V("p"), V("q"), V("r")), &Return{X: Arr_(V("p"), V("q"), V("r"))})}
+	set9 := &Func{Name: "set9", Params: []string{"z"}, Body: Blk(
+		&If{Cond: &IsExpr{V("i"), "number"}, Then: Ex(Asg("=", V("i"), N("9")))},
+		&If{Cond: &IsExpr{V("o"), "object"}, Then: Ex(Asg("=", Mem(V("o"), "k"), N("9")))},
+		&If{Cond: &IsExpr{V("a"), "array"}, Then: Ex(Asg("=", Idx(V("a"), N("0")), N("9")))},
+		&Return{X: S("set")})}
+	cur := &Func{Name: "cur", Body: Blk(&Return{X: V("count")})}
+	curk := &Func{Name: "curk", Body: Blk(&Return{X: Mem(V("g"), "k")})}
+	bump := &Func{Name: "bump", Body: Blk(Ex(Asg("=", V("count"), Bin("+", V("count"), N("1")))), Ex(Asg("=", Mem(V("g"), "k"), Bin("+", Mem(V("g"), "k"), N("10")))), &Return{X: V("count")})}
+	funcs := []*Func{c09Show, f3, set9, cur, curk, bump}
+	var out []*progCase
+	var tags []string
+	tag := "literal"
+	add := func(l loc, body ...Stmt) {
+		tags = append(tags, tag)
+		pc := &progCase{P: &Program{Funcs: funcs, Rules: []*Rule{{Kind: "BEGIN", Body: Blk(append(append([]Stmt{}, l.init...), body...)...)}}}}
+		if l.doc != "" {
+			pc.P.Rules[0].Kind = ""
+			pc.Files = []inFile{{"in.json", l.doc}}
+			pc.Root = true
+		}
+		out = append(out, pc)
+	}
+	for li, l := range locs {
+		for ei, ef := range effects {
+			if ei == 6 && li >= 3 {
+				continue
+			}
+			x := l.x
+			e := func() Expr { return ef(x()) }
+			add(l, Ex(Asg("=", V("r"), Arr_(x(), e(), x()))), showS("r", V("r")), showS("loc", x()))
+			add(l, Ex(Asg("=", V("r"), Arr_(x(), x(), e()))), showS("r", V("r")), showS("loc", x()))
+			add(l, Ex(Asg("=", V("r"), Arr_(Arr_(x()), e(), &ObjLit{Keys: []string{"v"}, Vals: []Expr{x()}}))), showS("r", V("r")))
+			add(l, Ex(Asg("=", V("r"), &ObjLit{Keys: []string{"p", "q", "r"}, Vals: []Expr{x(), e(), x()}})), showS("r", V("r")), showS("loc", x()))
+			tag = "call"
+			add(l, Ex(Asg("=", V("r"), CallE(V("f3"), x(), e(), x()))), showS("r", V("r")), showS("loc", x()))
+			add(l, Ex(Asg("=", V("r"), CallE(V("f3"), x(), x(), e()))), showS("r", V("r")), showS("loc", x()))
+			tag = "printf"
+			add(l, Ex(CallE(V("printf"), S("%v|%v|%v\n"), x(), e(), x())), showS("loc", x()))
+			add(l, Ex(CallE(V("printf"), S("%v|%v|%v\n"), x(), x(), e())), showS("loc", x()))
+			tag = "push"
+			add(l, Ex(Asg("=", V("b"), Arr_())), Ex(CallE(Mem(CallE(Mem(CallE(Mem(V("b"), "push"), x()), "push"), e()), "push"), x())), showS("b", V("b")), showS("loc", x()))
+			tag = "assign"
+			add(l, Ex(Asg("=", V("kept"), x())), Blk(Ex(e())), showS("kept", V("kept")), showS("loc", x()))
+			tag = "literal"
+		}
+	}
+	tag = "return"
+	g := loc{init: []Stmt{Ex(Asg("=", V("count"), N("0"))), Ex(Asg("=", V("g"), &ObjLit{Keys: []string{"k"}, Vals: []Expr{N("1")}}))}}
+	for _, c := range []func() Expr{func() Expr { return CallE(V("cur")) }, func() Expr { return CallE(V("curk")) }} {
+		b := func() Expr { return CallE(V("bump")) }
+		add(g, Pr(c(), b(), c()))
+		add(g, Ex(Asg("=", V("r"), Bin("+", c(), b()))), showS("r", V("r")))
+		add(g, Ex(Asg("=", V("r"), Bin("<", c(), b()))), showS("r", V("r")))
+		add(g, Ex(Asg("=", V("r"), Bin("==", c(), b()))), showS("r", V("r")))
+		add(g, Ex(Asg("=", V("r"), Bin("+", Bin("+", S("<"), c()), b()))), showS("r", V("r")))
+		add(g, Ex(Asg("=", V("r"), Arr_(c(), b(), c()))), showS("r", V("r")))
+		add(g, Ex(Asg("=", V("r"), CallE(V("f3"), c(), b(), c()))), showS("r", V("r")))
+		tag = "printf"
+		add(g, Ex(CallE(V("printf"), S("%v|%v|%v\n"), c(), b(), c())))
+		tag = "return"
+		add(g, Ex(Asg("=", V("r"), &MatchExpr{Subj: c(), Cases: []MatchCase{{Pats: []Expr{V("m")}, Body: Arr_(b(), V("m"), c())}}})), showS("r", V("r")))
+		add(g, Ex(Asg("=", V("kept"), c())), Ex(b()), showS("kept", V("kept")), Ex(Asg("+=", V("kept"), N("100"))), showS("cur", c()))
+	}
+	return out, tags
+}
+
+// copyTimeRun runs the copy-time programs of the given kinds as cases of another property.
+func copyTimeRun(c *fw.Ctx, kinds ...string) {
+	pcs, tags := copyTimePrograms()
+	for i, pc := range pcs {
+		want := false
+		for _, k := range kinds {
+			want = want || tags[i] == k
+		}
+		if !want {
+			continue
+		}
+		pc, i := pc, i
+		c.Do(func() any { return c09Spec{Form: "copytime", Op: i, Text: pc.source()} }, func() *fw.Violation { v, _, _ := pc.check(c); return v })
+	}
+}
+
+func copyTimeReplay(c *fw.Ctx, raw json.RawMessage) (*fw.Violation, bool) {
+	var s c09Spec
+	if !unmarshal(raw, &s) || s.Form != "copytime" {
+		return nil, false
+	}
+	v, _, _ := c09CopyTimePrograms()[s.Op].check(c)
+	return v, true
+}
+
+func c09Base() int {
+	nSt := len(c09Steps)
+	return len(c09Roots)*nSt + len(c09Roots) + len(c09HistStmts())*len(c09HistDocs) + len(c09ObjStmts()) + nSt + len(c09MixStmts())*len(c09MixStmts())
+}
+
 func init() {
 	var docs1, docs2 *docGen
 	setup := func() {
@@ -327,9 +456,9 @@ func init() {
 		Rule: "documents (all trees of depth <= 1, thorough also depth 2) x target paths of <= 3 steps over .a .b ['a'] and the indices 0 1 -1 2 5 0.9 -0.5 1048577, rooted at $, at a variable aliasing the document and at a fresh variable, x 7 stores (=, +=, prefix and postfix ++/--, storing a container) and 9 reads (plain, non-mutating methods, operators); " +
 			"after the operation the program shows the result, $, the alias and the fresh variable, ENDFILE shows $ again and the JSON output is compared with the model's document; " +
 			"all histories of <= L statements over 14 aliasing / mutating statements (copy, share, index and member stores, push/pop through aliases, a mutating callee, loop variables, padding) on three documents, showing every variable after every statement; all histories of L statements over 12 object statements (inserts through an alias or a callee, iteration and printing through the other name, pluck, rebinding); " +
-			"all histories of L' statements over 26 statements drawn from every corner of the language (arrays, objects, strings, pluck, split, sort, match, for-in, functions with default parameters, printf, stores into $), run once per element of a two-element input; every target path of <= 2 steps x operation also as ONE expression site over the sequence of all documents (forward and reversed); oracle: whole-store equality with the reference interpreter (DESIGN.md 3.10); states = (read/write, root, path length, outcome); non-trivial = same",
+			"all histories of L' statements over 26 statements drawn from every corner of the language (arrays, objects, strings, pluck, split, sort, match, for-in, functions with default parameters, printf, stores into $), run once per element of a two-element input; every target path of <= 2 steps x operation also as ONE expression site over the sequence of all documents (forward and reversed); COPY TIME: 5 scalar locations x 7 effects x 10 list forms (array / object literal, arguments of a user function, printf and chained push) holding read, effect, read of one location, and calls returning a global by value next to calls changing it in 10 forms; oracle: whole-store equality with the reference interpreter (DESIGN.md 3.10); states = (read/write, root, path length, outcome); non-trivial = same",
 		Plan: func(t fw.Tier) int {
-			return len(c09Roots)*nSt + len(c09Roots) + len(c09HistStmts())*len(c09HistDocs) + len(c09ObjStmts()) + nSt + len(c09MixStmts())*len(c09MixStmts())
+			return c09Base() + 1
 		},
 		Bound: func(t fw.Tier) string {
 			setup()
@@ -341,6 +470,19 @@ func init() {
 		Assumptions: []string{"reference interpreter mc/refsem (locations, pending paths, copy-vs-share)", "the JSON output is read with the independent RFC 8259 reader"},
 		Run: func(c *fw.Ctx, u int) {
 			setup()
+			if u == c09Base() {
+				for i, pc := range c09CopyTimePrograms() {
+					pc, i := pc, i
+					c.Do(func() any { return c09Spec{Form: "copytime", Op: i, Text: pc.source()} }, func() *fw.Violation {
+						v, res, skipped := pc.check(c)
+						if !skipped && v == nil {
+							c.State("copy time: " + res.Kind)
+						}
+						return v
+					})
+				}
+				return
+			}
 			nPathUnits := len(c09Roots)*nSt + len(c09Roots)
 			if u < nPathUnits {
 				var root, first int
@@ -458,6 +600,10 @@ func init() {
 			var s c09Spec
 			if !unmarshal(raw, &s) {
 				return nil
+			}
+			if s.Form == "copytime" {
+				v, _, _ := c09CopyTimePrograms()[s.Op].check(c)
+				return v
 			}
 			if s.Form == "hist" {
 				return c09HistCheck(c, s)
